@@ -14,7 +14,7 @@ for seed in "$@"; do
   git -C "$wt" apply "$PWD/$seed/patch.diff" || { echo "SUITE $seed: patch does not apply"; git -C /repo worktree remove --force "$wt"; continue; }
   for m in $(cat /w/out/gomods.txt); do
     n=$(echo "$m" | tr '/.' '__')
-    (cd "$wt/$m" && go test -json -vet=off -count=1 -timeout 25m ./... > "$out/$n.json" 2>"$out/$n.err")
+    (cd "$wt/$m" && go test -json -vet=off -count=1 -timeout 10m ./... > "$out/$n.json" 2>"$out/$n.err")
     # the suite has a few load-sensitive tests (1 ms deadlines, a 100 us context): if a stable_pass test of this module
     # did not pass, the module is run a second time and a test counts as passing if it passed in either run
     # (BASELINE's stable_pass was itself established over several runs)
@@ -31,7 +31,25 @@ need={t for t in base if t.split('::')[0] in pkgs}
 sys.exit(0 if need<=passed else 1)
 PY
     then
-      (cd "$wt/$m" && go test -json -vet=off -count=1 -timeout 25m ./... > "$out/${n}_retry.json" 2>"$out/${n}_retry.err")
+      (cd "$wt/$m" && go test -json -vet=off -count=1 -timeout 10m ./... > "$out/${n}_retry.json" 2>"$out/${n}_retry.err")
+      # a third and last attempt for the tests that hang under load (TestSentinelSendToReplicasClientPubSub): only when a
+      # whole package is still without a verdict for some stable test
+      if ! python3 - "$out/$n.json" "$out/${n}_retry.json" <<'PY'
+import json,sys
+base=set(json.load(open('/root/.vp/BASELINE.json'))['stable_pass'])
+passed=set(); pkgs=set()
+for f in sys.argv[1:]:
+    for line in open(f, errors='replace'):
+        try: e=json.loads(line)
+        except Exception: continue
+        if e.get('Package'): pkgs.add(e['Package'])
+        if e.get('Test') and e.get('Action')=='pass': passed.add(e['Package']+'::'+e['Test'])
+need={t for t in base if t.split('::')[0] in pkgs}
+sys.exit(0 if need<=passed else 1)
+PY
+      then
+        (cd "$wt/$m" && go test -json -vet=off -count=1 -timeout 10m ./... > "$out/${n}_retry2.json" 2>"$out/${n}_retry2.err")
+      fi
     fi
   done
   python3 - "$out" "$seed" <<'PY'
@@ -53,7 +71,7 @@ missing=sorted(stable-passed)
 print("SUITE %s: stable_pass=%d passed=%d not_passed=%d %s"%(seed,len(stable),len(stable&passed),len(missing),missing[:6]))
 m=json.load(open(seed+'/meta.json'))
 m['suite_with_patch']={"stable_pass":len(stable),"passed":len(stable&passed),"not_passed":missing[:20],
-  "how":"tools/seed_suite.sh: scratch worktree of /repo HEAD + patch.diff, go test -json -vet=off -count=1 ./... in every module (a module with a failure is run once more: load-sensitive tests), compared with BASELINE stable_pass"}
+  "how":"tools/seed_suite.sh: scratch worktree of /repo HEAD + patch.diff, go test -json -vet=off -count=1 ./... in every module (a module with a stable test that did not pass is run again, at most three runs in all: load-sensitive tests; a test counts as passing if it passed in any run), compared with BASELINE stable_pass"}
 json.dump(m,open(seed+'/meta.json','w'),indent=1)
 PY
   git -C /repo worktree remove --force "$wt"; rm -rf "$out"
